@@ -102,6 +102,16 @@ CHECKS = {
               "field (channel, direction, wavenumber, amplitude, phase, zero elsewhere). ForcedStepper is compared with step(u + dt f) and the "
               "unforced step for every public class, physical and Fourier entry points."),
         note="TLC, numpy expm1, tolerance 1e-9 of the laminar amplitude; uses MC_ETDRK.RowSumOK (C02) for 'every order'"),
+    "C13": dict(
+        category="model_checking", design_ref="4/C13", engine="linear",
+        technique="TLC term-list equalities between specific and generic symbols (MC_Linear.EquivOK/GroupOK) and exact rational conversion tables (MC_Convert) + replay on every documented stepper pair",
+        text=("TLC checks for every stored index that each specific class has the same symbol as the generic linear family with the documented "
+              "coefficient list (incl. the D*a_0 zeroth-order convention, KdV signs, Swift-Hohenberg in 1D), that dt*lambda is invariant under "
+              "(L,dt,a_j) -> (sL, t dt, a_j s^j/t), and - in MC_Convert - that normalize/denormalize and reduce/extract are mutual inverses and follow "
+              "alpha_j = a_j dt/L^j, gamma_j = alpha_j N^j 2^(j-1) D, delta_1 = beta_1 M N D, delta_2 = beta_2 M N^2 D exactly over a rational grid. "
+              "Every row is replayed into the conversion functions; every documented (specific, generic) pair x flags x D x N x order 0-4 is run on a "
+              "white-noise state together with the normalized and difficulty steppers built from the specification's formulas and a rescaled triple."),
+        note="TLC, code-vs-code tolerance 1e-10 (each side bound to the specification by C01-C03)"),
     "C14": dict(
         category="model_checking", design_ref="4/C14", engine="rollout",
         technique="TLC state machine of rollout/repeat/windows (MC_Rollout) + replay of every terminal state + TLC trace validation (Trace_Rollout) of recorded executions",
@@ -165,7 +175,7 @@ def main():
         "engines": [
             {"name": "layout", "path": "spec/MC_Layout.tla spec/MC_Fft.tla harness/checks/c04.py", "serves_properties": ["C04"],
              "kind_free_text": "TLC exhaustive tables + spec->code replay"},
-            {"name": "linear", "path": "spec/Symbols.tla spec/MC_Linear.tla harness/linear.py harness/checks/c01.py", "serves_properties": ["C01", "C05", "C11"],
+            {"name": "linear", "path": "spec/Symbols.tla spec/MC_Linear.tla harness/linear.py harness/checks/c01.py", "serves_properties": ["C01", "C05", "C11", "C13"],
              "kind_free_text": "TLC symbol tables + behaviours, spec->code replay"},
             {"name": "etdrk", "path": "spec/Tableau.tla spec/MC_ETDRK.tla spec/Trace_ETDRK.tla harness/etdrk.py harness/checks/c02.py", "serves_properties": ["C02"],
              "kind_free_text": "TLC symbolic stage machine + coefficient cover + trace validation"},
